@@ -263,7 +263,7 @@ NONTRIVIAL["C04"] = lambda r: r.split()[0] == "ddata" and len(r.split()[1]) >= 4
 PROPS["C10"] = _enc_prop("c10",
     "Upper-bound oracle with witnesses: for every case the search of DM/Spec/Opt.lean (dynamic programming over whole mode runs + all end-of-symbol forms + pure ASCII / pure Base256 candidates, full search for inputs up to 48 bytes) looks for a legal stream in a listed symbol of smaller capacity than the one the encoder chose (or in any listed symbol when the encoder refused); a hit is reported together with the witness stream, which the reference decoder maps back to the input. The search is sound (every report has a witness) but not complete.",
     "Exploration with a witness-producing oracle; planner optimality is not proved (DESIGN.md, C10).",
-    "Trusted: reference builder/decoder (witness check), harness. Inputs in macro/FNC1/ECI configurations are not compared.",
+    "Trusted: reference builder/decoder (witness check), harness. Cases with an ECI designator are not compared; FNC1-start and Macro 05/06 messages are searched with the header codeword in front (DM.Spec.Opt.searchH).",
     "search for a smaller legal encoding with re-checked witness (Lean), compared with the encoder's choice")
 NONTRIVIAL["C10"] = _enc_nontrivial
 
